@@ -162,7 +162,8 @@ def jobs(tier, seed):
     n = 4 if tier == 'quick' else 5
     for i in range(len(UA.UNI)):
         js.append(dict(kind='uni', maxlen=n, first=i))
-    js.append(dict(kind='soup', maxlen=6 if tier == 'quick' else 8))
+    for f in range(len(UA.SOUP)):
+        js.append(dict(kind='soup', maxlen=6 if tier == 'quick' else 8, first=f))
     js.append(dict(kind='product', reduced=True))
     for i in range(len(UA.SIGMA)):
         js.append(dict(kind='sigma', maxlen=3 if tier == 'quick' else 4, first=i))
@@ -196,11 +197,10 @@ def run_job(job):
             last = t
         res['samples'].append(dict(kind='unicode alphabet', example=ascii(last)))
     elif kind == 'soup':
-        for n in range(0, job['maxlen'] + 1):
-            for t in itertools.product(UA.SOUP, repeat=n):
-                s = ''.join(t)
-                for u in ('http://' + s, 'http://' + s + '/', 'http://a' + s + 'b/', s):
-                    check_parse(u, 'utf-8', res, seen)
+        for s in UA.sigma_strings(job['maxlen'], UA.SOUP, first=job['first']):
+            for u in ('http://' + s, 'http://' + s + '/', 'http://a' + s + 'b/', s,
+                      'http://[fe80::1' + s + '/'):
+                check_parse(u, 'utf-8', res, seen)
         res['samples'].append(dict(kind='bracket/colon soup', maxlen=job['maxlen']))
     elif kind == 'product':
         if job['reduced']:
